@@ -90,19 +90,46 @@ def build (p : Packet) : List UInt8 :=
   be 2 p.htype ++ be 2 p.ptype ++ be 1 p.hlen ++ be 1 p.plen ++ be 2 p.oper.code ++
   be 6 p.smac ++ be 4 p.sip ++ be 6 p.tmac ++ be 4 p.tip
 
+/-- `next_u8 / next_u16_be / next_u48_be / next_ipv4addr` of `BytesExt`: take `w` bytes off the
+    iterator, or fail when it runs dry -/
+def rd (w : Nat) (b : List UInt8) : Except String (Nat × List UInt8) :=
+  if b.length < w then .error "HeaderTooShort" else .ok (fromBe (b.take w), b.drop w)
+
 /-- `ArpPacket::from_bytes`: fields are read in order; a missing byte is `HeaderTooShort`, an
     operation other than 1/2 is `InvalidOperation` (detected before the addresses are read);
     trailing bytes are ignored -/
 def fromBytes (b : List UInt8) : Except String Packet :=
-  if b.length < 8 then .error "HeaderTooShort" else
-  let op := fromBe ((b.drop 6).take 2)
+  match rd 2 b with
+  | .error e => .error e
+  | .ok (htype, b) =>
+  match rd 2 b with
+  | .error e => .error e
+  | .ok (ptype, b) =>
+  match rd 1 b with
+  | .error e => .error e
+  | .ok (hlen, b) =>
+  match rd 1 b with
+  | .error e => .error e
+  | .ok (plen, b) =>
+  match rd 2 b with
+  | .error e => .error e
+  | .ok (op, b) =>
   if op ≠ operRequest ∧ op ≠ operReply then .error "InvalidOperation" else
-  if b.length < packetSize then .error "HeaderTooShort" else
-  .ok { htype := fromBe (b.take 2), ptype := fromBe ((b.drop 2).take 2),
-        hlen := fromBe ((b.drop 4).take 1), plen := fromBe ((b.drop 5).take 1),
+  match rd 6 b with
+  | .error e => .error e
+  | .ok (smac, b) =>
+  match rd 4 b with
+  | .error e => .error e
+  | .ok (sip, b) =>
+  match rd 6 b with
+  | .error e => .error e
+  | .ok (tmac, b) =>
+  match rd 4 b with
+  | .error e => .error e
+  | .ok (tip, _) =>
+  .ok { htype := htype, ptype := ptype, hlen := hlen, plen := plen,
         oper := if op = operRequest then .request else .reply,
-        smac := fromBe ((b.drop 8).take 6), sip := fromBe ((b.drop 14).take 4),
-        tmac := fromBe ((b.drop 18).take 6), tip := fromBe ((b.drop 24).take 4) }
+        smac := smac, sip := sip, tmac := tmac, tip := tip }
 
 /-! ### machines -/
 
